@@ -16,7 +16,7 @@ theorem Encodes_nrows (p : Payload) (c : Column) (h : Encodes p c) : p.nrows = c
     | strs es =>
       obtain ⟨hi, _⟩ := h
       rcases hi with hi | ⟨he, hi⟩
-      · subst hi; simp [Payload.nrows, Column.length, offsets, offsetsFrom_length]
+      · subst hi; simp [Payload.nrows, Column.length, offsetsF, offsetsFrom_length]
       · subst he hi; rfl
 
 /-- looking a name up in the frame and in the columns it holds -/
